@@ -20,6 +20,10 @@
 #include <dlfcn.h>
 
 #include "lockfree_ring_buffer.h"
+#include "fiber_verif.h"
+#if defined(FIBER_VERIF) && __SANITIZE_THREAD__
+#include <sanitizer/tsan_interface.h>
+#endif
 
 #ifdef FIBER_STACK_SPLIT
 void __splitstack_block_signals(int* new, int* old);
@@ -47,6 +51,7 @@ static _Atomic(hazard_pointer_thread_record_t*) fiber_hazard_head = NULL;
 
 void fiber_destroy(fiber_t* f) {
   if (f) {
+    FIBER_VERIF_POINT(FV_FIBER_DESTROY, f, 0);
     assert(f->state == FIBER_STATE_DONE);
     fiber_context_destroy(&f->context);
     free(f->mpsc_fifo_node);
@@ -91,6 +96,7 @@ static inline void fiber_manager_switch_to(fiber_manager_t* manager,
   manager->current_fiber = new_fiber;
   manager->old_fiber = old_fiber;
   new_fiber->state = FIBER_STATE_RUNNING;
+  FIBER_VERIF_POINT(FV_SWITCH_PRE, old_fiber, new_fiber);
   fiber_context_swap(&old_fiber->context, &new_fiber->context);
 
   fiber_manager_do_maintenance();
@@ -155,6 +161,11 @@ static void* fiber_manager_thread_func(void* param) {
 
   fiber_manager_t* manager = (fiber_manager_t*)param;
   if (!manager->maintenance_fiber) {
+#if defined(FIBER_VERIF) && __SANITIZE_THREAD__
+    // the thread fiber was created on the main thread; adopt this thread's
+    // TSan state so switching back to it is legal
+    manager->thread_fiber->context.tsan_fiber = __tsan_get_current_fiber();
+#endif
     manager->maintenance_fiber = manager->thread_fiber;
     should_check_events = true;
     this_thread = pthread_self();
@@ -170,6 +181,7 @@ static void* fiber_manager_thread_func(void* param) {
       manager->maintenance_fiber->state = FIBER_STATE_SAVING_STATE_TO_WAIT;
       fiber_manager_switch_to(manager, manager->maintenance_fiber, new_fiber);
     } else if (should_check_events) {
+      FIBER_VERIF_POINT(FV_IDLE, manager, 0);
       const int num_events = fiber_poll_events();
       if (num_events == 0) {
         fiber_poll_events_blocking(0, FIBER_TIME_RESOLUTION_MS * 1000);
@@ -315,28 +327,33 @@ void fiber_manager_do_maintenance() {
   fiber_manager_t* const manager = fiber_manager_get();
 
   fiber_t* const old_fiber = manager->old_fiber;
+  FIBER_VERIF_POINT(FV_SWITCH_POST, old_fiber, manager->current_fiber);
   if (old_fiber->state == FIBER_STATE_SAVING_STATE_TO_WAIT) {
     old_fiber->state = FIBER_STATE_WAITING;
   }
 
   if (manager->done_fiber) {
+    FIBER_VERIF_POINT(FV_MAINT_PUBLISH, FV_MAINT_DONE_FIBER, manager->done_fiber);
     fiber_destroy(manager->done_fiber);
     manager->done_fiber = NULL;
   }
 
   if (manager->to_schedule) {
     assert(manager->to_schedule->state == FIBER_STATE_READY);
+    FIBER_VERIF_POINT(FV_MAINT_PUBLISH, FV_MAINT_TO_SCHEDULE, manager->to_schedule);
     fiber_scheduler_schedule(manager->scheduler, manager->to_schedule);
     manager->to_schedule = NULL;
   }
 
   if (manager->mpmc_to_push.fifo) {
+    FIBER_VERIF_POINT(FV_MAINT_PUBLISH, FV_MAINT_MPMC_PUSH, manager->mpmc_to_push.fifo);
     mpmc_fifo_push(fiber_manager_get_hazard_record(manager),
                    manager->mpmc_to_push.fifo, manager->mpmc_to_push.node);
     memset(&manager->mpmc_to_push, 0, sizeof(manager->mpmc_to_push));
   }
 
   if (manager->mpsc_to_push.fifo) {
+    FIBER_VERIF_POINT(FV_MAINT_PUBLISH, FV_MAINT_MPSC_PUSH, manager->mpsc_to_push.fifo);
     mpsc_fifo_push(manager->mpsc_to_push.fifo, manager->mpsc_to_push.node);
     memset(&manager->mpsc_to_push, 0, sizeof(manager->mpsc_to_push));
   }
@@ -344,16 +361,19 @@ void fiber_manager_do_maintenance() {
   if (manager->mutex_to_unlock) {
     fiber_mutex_t* const to_unlock = manager->mutex_to_unlock;
     manager->mutex_to_unlock = NULL;
+    FIBER_VERIF_POINT(FV_MAINT_PUBLISH, FV_MAINT_MUTEX_UNLOCK, to_unlock);
     fiber_mutex_unlock_internal(to_unlock);
   }
 
   if (manager->spinlock_to_unlock) {
     fiber_spinlock_t* const to_unlock = manager->spinlock_to_unlock;
     manager->spinlock_to_unlock = NULL;
+    FIBER_VERIF_POINT(FV_MAINT_PUBLISH, FV_MAINT_SPIN_UNLOCK, to_unlock);
     fiber_spinlock_unlock(to_unlock);
   }
 
   if (manager->set_wait_location) {
+    FIBER_VERIF_POINT(FV_MAINT_PUBLISH, FV_MAINT_SET_WAIT, manager->set_wait_location);
     *manager->set_wait_location = manager->set_wait_value;
     manager->set_wait_location = NULL;
     manager->set_wait_value = NULL;
@@ -370,6 +390,7 @@ void fiber_manager_wait_in_mpmc_queue(fiber_manager_t* manager,
   manager->mpmc_to_push.fifo = fifo;
   manager->mpmc_to_push.node = fiber_manager_get_mpmc_node();
   manager->mpmc_to_push.node->value = this_fiber;
+  FIBER_VERIF_POINT(FV_WAIT_MPMC, fifo, this_fiber);
   fiber_manager_yield(manager);
 }
 
@@ -390,6 +411,7 @@ int fiber_manager_wake_from_mpmc_queue(fiber_manager_t* manager,
       wake_count += 1;
     } else if (count > 0) {
       cpu_relax();  // back off if we failed to pop something
+      FIBER_VERIF_POINT(FV_WAKE_SPIN, fifo, 0);
       manager->wake_mpmc_spin_count += 1;
     }
   } while (wake_count < count);
@@ -407,6 +429,7 @@ void fiber_manager_wait_in_mpsc_queue(fiber_manager_t* manager,
   mpsc_fifo_node_t* const node = this_fiber->mpsc_fifo_node;
   node->data = this_fiber;
   this_fiber->mpsc_fifo_node = NULL;
+  FIBER_VERIF_POINT(FV_WAIT_MPSC_PRE_PUSH, fifo, this_fiber);
   mpsc_fifo_push(fifo, node);
   fiber_manager_yield(manager);
 }
@@ -435,6 +458,7 @@ int fiber_manager_wake_from_mpsc_queue(fiber_manager_t* manager,
       wake_count += 1;
     } else if (count > 0) {
       manager->wake_mpsc_spin_count += 1;
+      FIBER_VERIF_POINT(FV_WAKE_SPIN, fifo, 0);
       fiber_manager_yield(manager);
       manager = fiber_manager_get();
     }
@@ -452,6 +476,7 @@ void fiber_manager_set_and_wait(fiber_manager_t* manager, void** location,
   manager->set_wait_location = location;
   manager->set_wait_value = value;
   this_fiber->state = FIBER_STATE_WAITING;
+  FIBER_VERIF_POINT(FV_SET_AND_WAIT, location, this_fiber);
   fiber_manager_yield(manager);
 }
 
